@@ -179,8 +179,9 @@ def core_call(magpy, entry, src, lam, m):
 
         def f(o):
             n = len(o)
+            # (a zero-length segment is a degenerate input of the bare core function; the Polyline object filters it out)
             return [sum(core.current_polyline_Hfield(observers=o, segments_start=tile(v[i], n), segments_end=tile(v[i + 1], n), currents=np.full(n, float(m)))
-                        for i in range(len(v) - 1))]
+                        for i in range(len(v) - 1) if not np.array_equal(v[i], v[i + 1]))]
         return ["H"], f
     if cls == "Dipole":
         return ["H"], lambda o: [core.dipole_Hfield(observers=o, moments=tile(pol1, len(o)))]
@@ -223,7 +224,7 @@ def run_job(magpy, job):
     limit = job["limit"]
     R = ROTS[job["ri"]].tolist()
     p2 = job["p2"]
-    sc = {"sid": job["sid"], "t0": job["sid"] * 10000, "kind": job["kind"], "body": entry["body"], "pose": {"R": R, "p2": p2}, "valid": entry["valid"], "exc0": job["exc0"],
+    sc = {"sid": job["sid"], "name": job["body"], "t0": job["sid"] * 10000, "kind": job["kind"], "body": entry["body"], "pose": {"R": R, "p2": p2}, "valid": entry["valid"], "exc0": job["exc0"],
           "scale": job["scale"], "gen": job["gen"], "iface": job["iface"], "fields": ["B", "H", "J", "M"], "vk": [], "outcome": "ok", "exc": "", "cpu": "fast",
           "shapes": [], "pts": [], "job": job}
     neval = 0
